@@ -361,10 +361,49 @@ func vUniInvokeCase(r *vRand) {
 		// the caller got the outcome of a response that carries another call's id
 		vEmit(vCase{Class: "invoke-foreign-id", Fail: "uni-foreign-response-accepted", Sig: "foreign", Info: map[string]interface{}{"frame_hex": vHex(st.frames[len(st.frames)-1])}})
 	}
+	// whatever happened in that call - also an abandoned reconnect - the client stays usable: a further call on it, with a
+	// write that succeeds and a reply, returns that reply (and does not panic)
+	func() {
+		firstTrace, firstPos := append([]string(nil), st.trace...), st.pos
+		ctx2, cancel2 := context.WithCancel(context.Background())
+		defer cancel2()
+		st.mu.Lock()
+		again := resp2Frame()
+		st.script = append(append([]vUniEv(nil), script[:st.pos]...), vUniEv{kind: "write", ok: true}, vUniEv{kind: "read", ok: true, own: true, frame: again, class: "reply"})
+		st.cancel, st.hasDl, st.misuse = cancel2, false, ""
+		st.mu.Unlock()
+		outcome := ""
+		func() {
+			defer func() {
+				if p := recover(); p != nil {
+					outcome = fmt.Sprintf("panic: %v", p)
+				}
+			}()
+			reply2 := &message.Response{}
+			if err2 := uc.Invoke(ctx2, "Method", &message.Response{CallId: "again"}, reply2); err2 != nil {
+				outcome = "error: " + err2.Error()
+			} else if reply2.CallId != "again-reply" {
+				outcome = "wrong reply"
+			}
+		}()
+		if outcome != "" && fail == "" {
+			vEmit(vCase{Class: "invoke-again", Fail: "uni-client-unusable-after-a-call", Sig: "again/" + strings.Join(evs, ";"),
+				Info: map[string]interface{}{"first_call": evs, "first_result": res, "outcome": outcome}})
+		}
+		st.mu.Lock()
+		st.trace, st.pos = firstTrace, firstPos
+		st.mu.Unlock()
+	}()
 	vEmit(vCase{Class: "invoke/" + last, Fail: fail,
 		Coq:  fmt.Sprintf("CInvoke %s %s %s %s %d", vCoqBool(dl), vCoqList(evs), res, vCoqList(st.trace), len(script)-st.pos),
 		Sig:  strings.Join(evs, ";") + fmt.Sprint(dl),
 		Info: map[string]interface{}{"script_len": len(script), "deadline": dl, "outcome": strings.SplitN(strings.Trim(res, "("), " ", 2)[0], "last_frame": last, "misuse": st.misuse, "deadline_monitor": st.dlViol}})
+}
+
+// the reply of the follow-up call: it answers whatever call id the client used (patched in by the fake connection)
+func resp2Frame() []byte {
+	b, _ := proto.Marshal(&message.Response{CallId: "again-reply"})
+	return vFrame(&message.Message{Exchange: &message.Message_Response{Response: &message.Response{CallId: "x", Payload: b}}})
 }
 
 func vUniRetryCase(r *vRand) {
